@@ -8,9 +8,10 @@ INVARIANTS = ["OperationalIsDenotational", "LoopIsUnrolling", "ModesAreUnion", "
 PROPS = ["OpsAppendOnly", "DeferredNotExecuted"]
 
 
-def cfg_text(N, metas, items, extra_consts="", invariants=INVARIANTS, props=PROPS, emit=True, fs="NoFS", clear="TRUE", minlen=0, prelude="<<>>"):
+def cfg_text(N, metas, items, extra_consts="", invariants=INVARIANTS, props=PROPS, emit=True, fs="NoFS", clear="TRUE", minlen=0, prelude="<<>>", basedir="RootDir"):
     s = "CONSTANT N = %d\nCONSTANT MinLen = %d\nCONSTANT MetaMenu <- %s\nCONSTANT ItemMenu <- %s\nCONSTANT ClearTablesAtLoadStart = %s\nCONSTANT FS <- %s\n" % (
         N, minlen, metas, items, clear, fs)
+    s += "CONSTANT BaseDir <- %s\n" % basedir
     if prelude == "<<>>":
         s += "CONSTANT Prelude <- EmptyPrelude\n"
     else:
